@@ -227,6 +227,7 @@ class Job:
         self.variants = []     # (variant kind, list string, display list or None)
         self.inputs = []       # ("F"|"B", mode, code units)
         self.out = {}          # variant index -> result lines
+        self.base_of = {}      # variant index -> the variant it has to agree with (default: the plain list, 0)
         self.fault = None
 
     def add_variant(self, vkind, sub, files, members, disp=None):
@@ -287,6 +288,17 @@ def build_variants(job, files, members, rng, generated=None):
     for n, b in files.items():
         job.files["v11/%s" % n] = b
     job.add_variant("sepdisplay", "v10", files, members, disp=",".join("v11/%s" % m for m in members))
+    # the first member on its own, AFTER the whole list was compiled in the same process: the one-element list (a string
+    # prefix of the list compiled first) and a wrapper that includes that member are one table, and not the table of the
+    # whole list (a table looked up by a prefix of its name would answer with the wrong one)
+    if len(members) > 1 and members[0] not in dicts:
+        k = len(job.variants)
+        job.add_variant("head-list", "v0", {}, members[:1])
+        hf = dict(files)
+        hf["c16head.ctb"] = b"include %s\n" % members[0].encode()
+        job.add_variant("head-wrapper", "v12", hf, ["c16head.ctb"])
+        job.base_of[k] = k
+        job.base_of[k + 1] = k
 
 
 # ---- generated tables: structured re-spelling
@@ -497,6 +509,13 @@ def run(tier):
             vk = j.variants[j.fault["variant"]][0] if j.fault.get("variant") is not None else "?"
             if j.fault["kind"] in ("tick-budget", "timeout"):
                 v.notes.append("termination fault during C16 run (decided by C03): %s %s" % (j.label, vk))
+            elif j.fault.get("variant") and base and len(base) == len(j.inputs):
+                # the plain list went through every call; the same table in another packaging ends the process
+                v.violation("C16:fault:%s:%s" % (vk, j.fault["frame"]),
+                            "packaging variant '%s' of %s ends the process (%s in %s) where the plain list of files answered every "
+                            "call" % (vk, j.label, j.fault["kind"], j.fault["frame"]),
+                            {"files": {p: b.hex() for p, b in j.files.items()} if sum(len(b) for b in j.files.values()) < 300000
+                             else "shipped:" + j.label, "script": j.script(), "stderr_tail": j.fault.get("stderr_tail", "")[-1200:]})
             else:
                 v.notes.append("memory fault during C16 run (decided by C01/C02/C13): %s %s %s %s" % (j.label, vk, j.fault["kind"], j.fault["frame"]))
         if not base or len(base) != len(j.inputs):
@@ -505,10 +524,12 @@ def run(tier):
         if all(R is None or R["ret"] == 0 for R in ok_base):
             dist["failed_to_compile_baseline"] += 1
         for k, (vk, lst, disp) in enumerate(j.variants):
-            if k == 0:
+            bk = j.base_of.get(k, 0)
+            if k == bk:
                 continue
             o = j.out.get(k)
-            if o is None or len(o) != len(j.inputs):
+            base = j.out.get(bk)
+            if o is None or len(o) != len(j.inputs) or base is None or len(base) != len(j.inputs):
                 continue
             dist["variants"][vk] = dist["variants"].get(vk, 0) + 1
             for (d, mode, u), lb, lv in zip(j.inputs, base, o):
@@ -525,12 +546,13 @@ def run(tier):
                                 % (vk, j.label, canon(lb)[:160], canon(lv)[:160]),
                                 {"files": {p: b.hex() for p, b in j.files.items() if p.startswith(("v0/", lst.split("/")[0] + "/"))}
                                  if sum(len(b) for b in j.files.values()) < 300000 else "shipped:" + j.label,
-                                 "script": [fwd_op(j.variants[0][1], mode, u) if d == "F" else bwd_op(j.variants[0][1], mode, u),
+                                 "script": ([fwd_op(j.variants[0][1], mode, u)] if bk else []) +
+                                           [fwd_op(j.variants[bk][1], mode, u) if d == "F" else bwd_op(j.variants[bk][1], mode, u),
                                             fwd_op(lst, mode, u, disp) if d == "F" else bwd_op(lst, mode, u, disp)],
                                  "variant": vk, "table_text": getattr(j, "text", "")})
                     break
         if len(v.cov["samples"]) < 4 and j.kind == "generated":
-            v.sample({"table": j.text[:400], "variants": [x[0] for x in j.variants], "first_result": base[0][:120]})
+            v.sample({"table": j.text[:400], "variants": [x[0] for x in j.variants], "first_result": j.out[0][0][:120]})
     v.cov["distribution"] = dist
     v.cov["rule"] = ("(i) lexer: every op goes through the C entry point and the Lean model, lines compared byte for byte; dot tokens "
                      "exhaustive to length %d over [0-9a-fA-F-g]; every byte value at each \\x digit position; (ii) packaging: %d "
